@@ -172,6 +172,20 @@ func (u *c16Universe) vecDeclares(entry, name string) bool {
 	return false
 }
 
+// jsonCarries: does the JSON token of this observation entry have the member tag
+func (u *c16Universe) jsonCarries(entry, tag string) bool {
+	i, j := strings.Index(entry, "("), strings.Index(entry, ")=")
+	if i < 0 || j < i {
+		return false
+	}
+	var m map[string]any
+	if json.Unmarshal(u.tokens[entry[i+1:j]][1], &m) != nil {
+		return false
+	}
+	_, ok := m[tag]
+	return ok
+}
+
 type c16Obs struct {
 	vec       []string // one entry per (name, kind)
 	instances []psatoken.IClaims
@@ -332,7 +346,32 @@ func c16System(k int) func() bfs.System {
 					if instrOn && nstores != 1 {
 						fail("C16:registration-store-count", "successful %s performed %d stores into the register map, want exactly 1", op.name, nstores)
 					}
+					// a JSON member name becomes a profile claim through the first registration that uses it: documents
+					// carrying that member with another value turn from "no profile claim: profile 1" into "unregistered
+					// profile: error" (C07 demands both), so they are affected by this registration as well
+					newTag := ""
+					for _, pp := range u.pool {
+						if pp.name == name {
+							newTag = pp.jsonTag
+						}
+					}
+					for n2 := range registered {
+						if n2 == name {
+							continue
+						}
+						for _, pp := range u.pool {
+							if pp.name == n2 && pp.jsonTag == newTag {
+								newTag = "" // the member name was a profile claim already
+							}
+						}
+					}
+					if newTag == "psa-profile" || newTag == "eat-profile" {
+						newTag = ""
+					}
 					for i := range before.vec {
+						if newTag != "" && strings.HasPrefix(before.vec[i], "json(") && u.jsonCarries(before.vec[i], newTag) {
+							continue
+						}
 						if before.vec[i] != after.vec[i] && !u.vecDeclares(before.vec[i], name) {
 							fail("C16:registration-changes-other-lookup:"+op.name, "%s changed the outcome for a token that does not declare %s: %s -> %s", op.name, name, before.vec[i], after.vec[i])
 						}
